@@ -333,6 +333,23 @@ def _evaluate_states(ctx, rng, model, law, split, dim, Ne, nPg, key0):
             with quiet(), np.errstate(all="ignore"):
                 pj, _ = model._PhaseField__Spectral_Decomposition(FeArray.asfearray(ref["decomposed"][0].copy()), False)
             proj = np.einsum("...ij,...j->...i", np.asarray(pj, float), ref["decomposed"][0])
+            # the fourth-order projector itself is the derivative of the positive part (its cross terms do not act on the tensor
+            # that was decomposed, so 'P+ v = v+' does not see them): central differences of the eigh-based positive part, at the
+            # points whose principal values are well separated (the derivative exists and the quotient is clean there)
+            v0 = ref["decomposed"][0]
+            lam_ = np.linalg.eigvalsh(to_tensor(v0, dim))
+            gap = np.diff(lam_, axis=-1).min(-1)
+            amp = np.abs(lam_).max(-1)
+            well = (gap > 0.15 * amp) & (amp > 0) & (np.abs(lam_).min(-1) > 0.05 * amp)
+            if well.any():
+                Pj = np.asarray(pj, float)
+                nd_ = v0.shape[-1]
+                Pfd = np.zeros(Pj.shape)
+                for j_ in range(nd_):
+                    hh = 1e-6 * amp[..., None] * np.eye(nd_)[j_]
+                    Pfd[..., :, j_] = (pos_neg(v0 + hh, dim)[0] - pos_neg(v0 - hh, dim)[0]) / (2e-6 * amp[..., None])
+                ctx.check("projector-derivative", float(np.abs(Pj[well] - Pfd[well]).max()), 1e-6, key0 + "/P+=d(v+)/dv", n=int(well.sum()),
+                          mixed_sign=bool(((lam_[well].min(-1) < 0) & (lam_[well].max(-1) > 0)).any()))
         except Exception as e:  # noqa: BLE001
             ctx.require("projector-vs-eigh", False, key0 + "/projector/raised", raised=type(e).__name__, message=str(e)[:200])
     nclasses = 0
